@@ -17,6 +17,7 @@ version table and the persisted tables.  Correspondence: the same inputs through
 `Build.build` / the generated `Version` functions via `lean/Driver/C15.lean`."""
 import importlib
 import itertools
+import json
 import logging
 import os
 import shutil
@@ -37,9 +38,10 @@ MANIFEST = dict(
          'vge_eq_vle_swap, vgt_eq, vlt_eq, vlt_eq_not_vge, vgt_eq_not_vle, vgt_eq_vlt_swap, trichotomy, '
          'newer_eq_vgt).  Lean theorems over a hand model of schedule._diff/build (+ the reached part of '
          'organize, fifo.Unique) with the table indices, owner-prefix length, all-targets marker and _is_asp kind '
-         'regenerated from the source: diff_exact, build_error_iff, build_exact (a node is queued iff its own '
-         'current version or that of one of its state vectors or values is not among the persisted versions; '
-         'its todo is exactly the known targets, exactly {__all__} for an analysis; every other todo is empty), '
+         'regenerated from the source: diff_exact, build_error_iff, build_exact (a node is in the queue with t in '
+         'its todo iff its own current version or that of one of its state vectors or values is not among the '
+         'persisted versions and t is a known target — exactly the marker __all__ for an analysis; the queue holds '
+         'exactly those changed nodes that have something to do; every other todo is empty; no duplicates), '
          'nothing_new_nothing_scheduled, bump_reschedules_exactly_owner — for every engine, every persisted '
          'table, every bump.  The model is tied to the real pl.version.current / persistent / schedule.build '
          '(and the real shelve versions()/update()) by a correspondence run on generated engines on every check, '
@@ -47,13 +49,15 @@ MANIFEST = dict(
          'against real dawgie.Version objects.',
     note='Trusted: Lean kernel; axioms propext/Classical.choice/Quot.sound only; tools/gen_c15.py; the harness '
          '(engine writer, fake db backend, canonicalisation as sorted sets). Modelled rather than verified: only '
-         'the scheduling decision of build (which nodes are queued, their todo); DAG construction (C09), que '
-         'order/level, status/runid/event, promote wiring and periodics are not. Names are component lists: '
+         'the scheduling decision of build (which nodes are queued, their todo, incl. the _prune of empty entries '
+         'at the end of organize); DAG construction (C09), que order/level, status/runid/event, promote wiring and '
+         'periodics are not. Names are component lists: '
          'task/algorithm/state-vector/value names contain no "." (the architecture reserves it). Version strings '
          'are opaque in the build model; asstring() == "d.i.b" is checked on the grid only. Read: "algorithm" = '
          'node of the algorithm tree, i.e. an algorithm with at least one value; a state vector without values '
-         'has nothing that can be persisted and is ignored (as pl.version.current does). With no known targets '
-         'queued nodes have an empty todo (that is C04, not flagged here).',
+         'has nothing that can be persisted and is ignored (as pl.version.current does). With no known targets a '
+         'non-analysis node has nothing to be scheduled for; whether it sits in the queue with an empty todo is '
+         'C04 (the monitor accepts both, the model follows the code: pruned).',
     technique='Lean 4 proof (decision logic stated outright; grind over the translated boolean/linear-integer '
               'expressions; membership lemmas for _diff/Unique) + translator + differential correspondence',
     design='7/C15',
@@ -543,6 +547,11 @@ def execute(fk, spec, stream, steps, res, lines=None, pending=None, tag='gen', s
     from dawgie.db.shelve import util as sutil
     from dawgie.db.shelve.state import DBI
 
+    import dawgie.pl.schedule as schedule
+
+    # a scenario starts like a fresh process (so that a replay file is self-contained); what an
+    # earlier build of the SAME scenario left in the module is part of the history under test
+    schedule.que, schedule.per, schedule.ae = [], [], None
     eng = Engine(spec)
     try:
         vers = dict(spec['vers'])
@@ -896,6 +905,12 @@ def run(ctx, res):
     try:
         for stream, spec, steps in corpus():
             execute(fk, spec, stream, steps, res, lines, pending, tag='corpus')
+        cdir = os.path.join(common.VERIF, 'corpus', 'C15')
+        for f in sorted(os.listdir(cdir)) if os.path.isdir(cdir) else []:
+            if f.endswith('.json'):  # minimised past failures (replay inputs)
+                inp = json.load(open(os.path.join(cdir, f)))['input']
+                if inp.get('kind') == 'build':
+                    execute(fk, inp['spec'], inp['stream'], inp['steps'], res, lines, pending, tag='corpus')
         exhaustive_small_scope(fk, res, lines, pending, 3 if level else 2)
         n_tab, n_sh = ((110, 30), (600, 150), (2500, 500))[level]
         for _ in range(n_tab):
